@@ -1,12 +1,317 @@
-(** C19 — proofs. *)
-From V Require Import Base.Util C20.Model C19.Model C19.Spec.
+(** C19 — proofs, part 1: task-table lemmas, the id invariant, fresh ids, dead ids. *)
+From V Require Import Base.Util C20.Model C19.Model.
+From Coq Require Import Sorted.
+
+(** * [path_eqb] is an equivalence *)
+
+Lemma comp_eqb_spec a b : reflect (a = b) (comp_eqb a b).
+Proof.
+  destruct a, b; cbn; try (constructor; congruence).
+  destruct (str_eqb_spec n n0) as [->|Hn]; constructor; congruence.
+Qed.
+
+Lemma list_eqb_comp_spec a : forall b, list_eqb comp_eqb a b = true <-> a = b.
+Proof.
+  induction a as [|x a IH]; intros [|y b]; cbn; split; intros H; try congruence; try discriminate.
+  - apply andb_true_iff in H as [H1 H2]. destruct (comp_eqb_spec x y); [|discriminate].
+    apply IH in H2. congruence.
+  - inversion H; subst. destruct (comp_eqb_spec y y); [|congruence]. cbn. now apply IH.
+Qed.
+
+Lemma path_eqb_iff a b : path_eqb a b = true <-> components a = components b.
+Proof. unfold path_eqb. apply list_eqb_comp_spec. Qed.
+
+Lemma path_eqb_refl a : path_eqb a a = true.
+Proof. now apply path_eqb_iff. Qed.
+
+Lemma path_eqb_sym a b : path_eqb a b = path_eqb b a.
+Proof.
+  destruct (path_eqb a b) eqn:E1, (path_eqb b a) eqn:E2; try reflexivity.
+  - apply path_eqb_iff in E1. symmetry in E1. apply path_eqb_iff in E1. congruence.
+  - apply path_eqb_iff in E2. symmetry in E2. apply path_eqb_iff in E2. congruence.
+Qed.
+
+Lemma path_eqb_trans_l a b c : path_eqb a b = true -> path_eqb a c = path_eqb b c.
+Proof.
+  intros H. apply path_eqb_iff in H.
+  destruct (path_eqb a c) eqn:E1, (path_eqb b c) eqn:E2; try reflexivity.
+  - apply path_eqb_iff in E1. assert (X : components b = components c) by congruence.
+    apply path_eqb_iff in X. congruence.
+  - apply path_eqb_iff in E2. assert (X : components a = components c) by congruence.
+    apply path_eqb_iff in X. congruence.
+Qed.
+
+Lemma path_eqb_trans_r a b c : path_eqb a b = true -> path_eqb c a = path_eqb c b.
+Proof. intros H. rewrite (path_eqb_sym c a), (path_eqb_sym c b). now apply path_eqb_trans_l. Qed.
+
+(** * The task table *)
+
+Lemma find_set_same t x ts :
+  find_task t (set_task t x ts) = match find_task t ts with Some _ => Some x | None => None end.
+Proof.
+  induction ts as [|[k y] r IH]; cbn; [reflexivity|].
+  destruct (N.eqb k t) eqn:E; cbn; rewrite E; [reflexivity|exact IH].
+Qed.
+
+Lemma find_set_other t t' x ts : t <> t' -> find_task t (set_task t' x ts) = find_task t ts.
+Proof.
+  intros Hn. induction ts as [|[k y] r IH]; cbn; [reflexivity|].
+  destruct (N.eqb k t') eqn:E; cbn.
+  - apply N.eqb_eq in E; subst k. destruct (N.eqb t' t) eqn:E2; [apply N.eqb_eq in E2; congruence|reflexivity].
+  - destruct (N.eqb k t); [reflexivity|exact IH].
+Qed.
+
+Lemma find_remove_same t ts : find_task t (remove_task t ts) = None.
+Proof.
+  induction ts as [|[k y] r IH]; cbn; [reflexivity|].
+  destruct (N.eqb k t) eqn:E; [exact IH|]. cbn. rewrite E. exact IH.
+Qed.
+
+Lemma find_remove_other t t' ts : t <> t' -> find_task t (remove_task t' ts) = find_task t ts.
+Proof.
+  intros Hn. induction ts as [|[k y] r IH]; cbn; [reflexivity|].
+  destruct (N.eqb k t') eqn:E.
+  - apply N.eqb_eq in E; subst k. destruct (N.eqb t' t) eqn:E2; [apply N.eqb_eq in E2; congruence|exact IH].
+  - cbn. destruct (N.eqb k t); [reflexivity|exact IH].
+Qed.
+
+Lemma find_app t ts k x :
+  find_task t (ts ++ [(k, x)]) =
+  match find_task t ts with Some y => Some y | None => if N.eqb k t then Some x else None end.
+Proof.
+  induction ts as [|[k' y] r IH]; cbn; [reflexivity|].
+  destruct (N.eqb k' t); [reflexivity|exact IH].
+Qed.
+
+Lemma remove_none t ts : find_task t ts = None -> remove_task t ts = ts.
+Proof.
+  induction ts as [|[k y] r IH]; cbn; [reflexivity|].
+  destruct (N.eqb k t); [discriminate|]. intros H. now rewrite IH.
+Qed.
+
+Lemma find_in t x ts : find_task t ts = Some x -> In (t, x) ts.
+Proof.
+  induction ts as [|[k y] r IH]; cbn; [discriminate|].
+  destruct (N.eqb k t) eqn:E.
+  - apply N.eqb_eq in E. intros [= ->]. left. now subst.
+  - intros H. right. now apply IH.
+Qed.
+
+(** * Invariant: live ids are positive and below [next_id] *)
+
+Definition keys_ok (n : N) (ts : list (N * task)) : Prop :=
+  Forall (fun kx => (0 < fst kx /\ fst kx < n)%N) ts.
+
+Definition wf (st : lstate) : Prop := (0 < next_id st)%N /\ keys_ok (next_id st) (tasks st).
+
+Lemma wf_init : wf init_state.
+Proof. split; [reflexivity|constructor]. Qed.
+
+Lemma keys_ok_mono n m ts : (n <= m)%N -> keys_ok n ts -> keys_ok m ts.
+Proof. intros Hle H. eapply Forall_impl; [|exact H]. cbn. intros a [? ?]. split; lia. Qed.
+
+Lemma keys_ok_set n t x ts : keys_ok n ts -> keys_ok n (set_task t x ts).
+Proof.
+  induction ts as [|[k y] r IH]; cbn; intros H; [constructor|].
+  inversion H as [|? ? Hk Hr]; subst. cbn in Hk.
+  destruct (N.eqb k t); constructor; cbn; try assumption. apply IH; assumption.
+Qed.
+
+Lemma keys_ok_remove n t ts : keys_ok n ts -> keys_ok n (remove_task t ts).
+Proof.
+  induction ts as [|[k y] r IH]; cbn; intros H; [constructor|].
+  inversion H as [|? ? Hk Hr]; subst.
+  destruct (N.eqb k t); [apply IH; assumption|constructor; [assumption|apply IH; assumption]].
+Qed.
+
+Lemma find_ge n ts t : keys_ok n ts -> (n <= t)%N -> find_task t ts = None.
+Proof.
+  induction ts as [|[k y] r IH]; cbn; intros H Hle; [reflexivity|].
+  inversion H as [|? ? [Hk0 Hk] Hr]; subst. cbn in *.
+  destruct (N.eqb k t) eqn:E; [apply N.eqb_eq in E; lia|auto].
+Qed.
+
+Lemma find_zero n ts : keys_ok n ts -> find_task 0 ts = None.
+Proof.
+  induction ts as [|[k y] r IH]; cbn; intros H; [reflexivity|].
+  inversion H as [|? ? [Hk0 Hk] Hr]; subst. cbn in *.
+  destruct (N.eqb k 0) eqn:E; [apply N.eqb_eq in E; lia|auto].
+Qed.
 
 Section P.
   Variable parse_o : str -> presult.
   Variable emit_o : str -> list (str * str) -> eresult.
+  Notation step := (step parse_o emit_o).
+  Notation run := (run parse_o emit_o).
+  Notation exec := (exec parse_o emit_o).
+  Notation register := (register parse_o).
 
-  Lemma dead_required st t :
-    find_task t (tasks st) = None ->
-    step parse_o emit_o st (Required t) = (Some (set_result st (VText TASK_NOT_FOUND)), RBool false).
-  Proof. intros H. cbn [step]. rewrite H. reflexivity. Qed.
+  (** a [Trap] response and "no next state" go together *)
+  Lemma step_trap_iff st c : fst (step st c) = None <-> snd (step st c) = Trap.
+  Proof.
+    destruct c; cbn [step].
+    - destruct (register (mkTask f []) f src) as [[x [m|]]|]; cbn; split; congruence.
+    - destruct (find_task t (tasks st)); cbn; split; congruence.
+    - destruct (find_task t (tasks st)); cbn; [|split; congruence].
+      destruct (register t0 f src) as [[x [m|]]|]; cbn; split; congruence.
+    - destruct (find_task t (tasks st)); cbn; [|split; congruence].
+      destruct (emit_o (t_root t0) (t_files t0)); cbn; split; congruence.
+    - cbn; split; congruence.
+    - destruct (result st) as [[m|l]|]; cbn; split; congruence.
+  Qed.
+
+  Lemma register_root x f src x' m : register x f src = Some (x', m) -> t_root x' = t_root x.
+  Proof.
+    unfold Model.register. destruct (parse_o src); intros [= <- <-]; reflexivity.
+  Qed.
+
+  Lemma wf_step st c st' x :
+    wf st -> step st c = (Some st', x) -> wf st' /\ (next_id st <= next_id st')%N.
+  Proof.
+    intros [Hp Hk] H. destruct c; cbn [step] in H.
+    - destruct (register (mkTask f []) f src) as [[y [m|]]|]; inversion H; subst; clear H; cbn.
+      + split; [split; assumption|lia].
+      + split; [|lia]. split; cbn; [lia|].
+        apply Forall_app. split.
+        * eapply keys_ok_mono; [|exact Hk]. lia.
+        * constructor; [cbn; lia|constructor].
+    - destruct (find_task t (tasks st)); inversion H; subst; cbn; (split; [split; assumption|lia]).
+    - destruct (find_task t (tasks st)) as [y|].
+      + destruct (register y f src) as [[y' [m|]]|]; inversion H; subst; cbn.
+        * split; [split; assumption|lia].
+        * split; [|lia]. split; cbn; [assumption|now apply keys_ok_set].
+      + inversion H; subst; cbn. split; [split; assumption|lia].
+    - destruct (find_task t (tasks st)) as [y|].
+      + destruct (emit_o (t_root y) (t_files y)); inversion H; subst; cbn; (split; [split; assumption|lia]).
+      + inversion H; subst; cbn. split; [split; assumption|lia].
+    - inversion H; subst; cbn. split; [|lia]. split; cbn; [assumption|now apply keys_ok_remove].
+    - destruct (result st) as [[m|l]|]; inversion H; subst; (split; [split; assumption|lia]).
+  Qed.
+
+  Lemma wf_exec h : forall st st', wf st -> exec st h = Some st' -> wf st' /\ (next_id st <= next_id st')%N.
+  Proof.
+    induction h as [|c r IH]; cbn; intros st st' Hwf H.
+    - inversion H; subst. split; [assumption|lia].
+    - destruct (step st c) as [[st1|] x] eqn:E; cbn in H; [|discriminate].
+      destruct (wf_step _ _ _ _ Hwf E) as [Hwf1 Hle].
+      destruct (IH _ _ Hwf1 H) as [Hwf' Hle']. split; [assumption|lia].
+  Qed.
+
+  (** * ids are fresh: strictly increasing, never 0, hence never reused *)
+
+  Fixpoint new_ids (rs : list resp) : list N :=
+    match rs with
+    | [] => []
+    | RId t :: r => if N.eqb t 0 then new_ids r else t :: new_ids r
+    | _ :: r => new_ids r
+    end.
+
+  Lemma step_id st c st' t :
+    step st c = (st', RId t) ->
+    (t = 0%N /\ (forall s1, st' = Some s1 -> next_id s1 = next_id st))
+    \/ (t = next_id st /\ exists s1, st' = Some s1 /\ next_id s1 = N.succ (next_id st)).
+  Proof.
+    intros H. destruct c; cbn [step] in H.
+    - destruct (register (mkTask f []) f src) as [[y [m|]]|]; inversion H; subst; clear H.
+      + left. split; [reflexivity|]. intros s1 [= <-]. reflexivity.
+      + right. split; [reflexivity|]. eexists. split; [reflexivity|]. reflexivity.
+    - destruct (find_task t0 (tasks st)); inversion H.
+    - destruct (find_task t0 (tasks st)) as [y|]; [|inversion H].
+      destruct (register y f src) as [[y' [m|]]|]; inversion H.
+    - destruct (find_task t0 (tasks st)) as [y|]; [|inversion H].
+      destruct (emit_o (t_root y) (t_files y)); inversion H.
+    - inversion H.
+    - destruct (result st) as [[m|l]|]; inversion H.
+  Qed.
+
+  Lemma ids_bounded h : forall st, wf st ->
+    Forall (fun t => (next_id st <= t)%N) (new_ids (run st h)) /\ StronglySorted N.lt (new_ids (run st h)).
+  Proof.
+    induction h as [|c r IH]; cbn [Model.run]; intros st Hwf.
+    - cbn. split; constructor.
+    - destruct (step st c) as [[st1|] x] eqn:E.
+      + destruct (wf_step _ _ _ _ Hwf E) as [Hwf1 Hle].
+        destruct (IH _ Hwf1) as [Hb Hs].
+        destruct x; cbn [new_ids];
+          try (split; [eapply Forall_impl; [|exact Hb]; cbn; intros; lia|exact Hs]).
+        destruct (step_id _ _ _ _ E) as [[-> Hn]|[-> [s1 [[= <-] Hn]]]].
+        * cbn. split; [eapply Forall_impl; [|exact Hb]; cbn; intros; lia|exact Hs].
+        * destruct Hwf as [Hp _]. destruct (N.eqb (next_id st) 0) eqn:E0; [apply N.eqb_eq in E0; lia|].
+          split.
+          -- constructor; [lia|]. eapply Forall_impl; [|exact Hb]. cbn. intros; lia.
+          -- constructor; [exact Hs|]. eapply Forall_impl; [|exact Hb]. cbn. intros; lia.
+      + destruct x; cbn; try (split; constructor).
+        destruct (step_id _ _ _ _ E) as [[-> _]|[_ [s1 [[=] _]]]]. cbn. split; constructor.
+  Qed.
+
+  Lemma ids_fresh h :
+    StronglySorted N.lt (new_ids (run init_state h)) /\ Forall (fun t => (1 <= t)%N) (new_ids (run init_state h)).
+  Proof.
+    destruct (ids_bounded h init_state wf_init) as [Hb Hs]. split; [exact Hs|exact Hb].
+  Qed.
+
+  (** * dead ids: never issued, 0, or freed *)
+
+  Definition dead (st : lstate) (t : N) : Prop := find_task t (tasks st) = None.
+
+  Lemma never_issued_dead st t : wf st -> (next_id st <= t)%N -> dead st t.
+  Proof. intros [_ Hk] Hle. eapply find_ge; eauto. Qed.
+
+  Lemma zero_dead st : wf st -> dead st 0.
+  Proof. intros [_ Hk]. eapply find_zero; eauto. Qed.
+
+  Lemma dead_calls st t : dead st t ->
+    step st (Required t) = (Some (set_result st (VText TASK_NOT_FOUND)), RBool false)
+    /\ (forall f src, step st (Load t f src) = (Some (set_result st (VText TASK_NOT_FOUND)), RBool false))
+    /\ step st (Emit t) = (Some (set_result st (VText TASK_NOT_FOUND)), RBool false)
+    /\ step st (Free t) = (Some st, RUnit).
+  Proof.
+    unfold dead. intros H. cbn [Model.step]. rewrite H. repeat split.
+    rewrite (remove_none _ _ H). destruct st; reflexivity.
+  Qed.
+
+  (** an id that is dead and already below [next_id] stays dead whatever is called afterwards *)
+  Lemma dead_step st c st' x t :
+    dead st t -> (t < next_id st)%N -> step st c = (Some st', x) -> dead st' t.
+  Proof.
+    unfold dead. intros Hd Hlt H. destruct c; cbn [Model.step] in H.
+    - destruct (register (mkTask f []) f src) as [[y [m|]]|]; inversion H; subst; clear H; cbn; [assumption|].
+      rewrite find_app, Hd. destruct (N.eqb (next_id st) t) eqn:E; [apply N.eqb_eq in E; lia|reflexivity].
+    - destruct (find_task t0 (tasks st)); inversion H; subst; cbn; assumption.
+    - destruct (find_task t0 (tasks st)) as [y|] eqn:Ef.
+      + destruct (register y f src) as [[y' [m|]]|]; inversion H; subst; cbn; [assumption|].
+        destruct (N.eq_dec t t0) as [->|Hn]; [congruence|]. now rewrite find_set_other.
+      + inversion H; subst; cbn; assumption.
+    - destruct (find_task t0 (tasks st)) as [y|].
+      + destruct (emit_o (t_root y) (t_files y)); inversion H; subst; cbn; assumption.
+      + inversion H; subst; cbn; assumption.
+    - inversion H; subst; cbn. destruct (N.eq_dec t t0) as [->|Hn];
+        [apply find_remove_same|now rewrite find_remove_other].
+    - destruct (result st) as [[m|l]|]; inversion H; subst; assumption.
+  Qed.
+
+  Lemma dead_exec h : forall st st' t,
+    wf st -> dead st t -> (t < next_id st)%N -> exec st h = Some st' -> dead st' t.
+  Proof.
+    induction h as [|c r IH]; cbn [Model.exec]; intros st st' t Hwf Hd Hlt H.
+    - inversion H; subst; assumption.
+    - destruct (step st c) as [[st1|] x] eqn:E; cbn in H; [|discriminate].
+      destruct (wf_step _ _ _ _ Hwf E) as [Hwf1 Hle].
+      eapply IH; [exact Hwf1| |lia|exact H]. eapply dead_step; eauto.
+  Qed.
+
+  Lemma free_makes_dead st t st' x : step st (Free t) = (Some st', x) -> dead st' t /\ next_id st' = next_id st.
+  Proof. cbn. intros [= <- <-]. split; [apply find_remove_same|reflexivity]. Qed.
+
+  (** once freed, an issued id is dead for ever *)
+  Lemma freed_stays_dead h1 h2 t st1 st2 :
+    exec init_state h1 = Some st1 -> (t < next_id st1)%N ->
+    exec st1 (Free t :: h2) = Some st2 -> dead st2 t.
+  Proof.
+    intros H1 Hlt H2. destruct (wf_exec _ _ _ wf_init H1) as [Hwf1 _].
+    cbn [Model.exec] in H2. destruct (step st1 (Free t)) as [[s|] x] eqn:E; cbn in H2; [|discriminate].
+    destruct (free_makes_dead _ _ _ _ E) as [Hd Hn].
+    destruct (wf_step _ _ _ _ Hwf1 E) as [Hwf _].
+    eapply dead_exec; [exact Hwf|exact Hd|lia|exact H2].
+  Qed.
 End P.
